@@ -624,3 +624,119 @@ def grows_stream(ctx, worlds, runs, outside=lambda w: False):
             j += 1
         out.append((idx[k], j, mv[j] if isinstance(mv, list) and j < len(mv) else None, exp[j] if j < len(exp) else None))
     return out, len(cases)
+
+
+# ------------------------------------------------------------------ handlers as functions of the machine state (Model/SimHandlers.v)
+HEADER_HANDLERS = ("From Verif Require Import Gen.Src_Task Gen.Src_Event Model.EventQ Model.Sim Model.SimRows Model.SimQ "
+                   "Model.SimHandlers.")
+
+
+def handlers_expected(run, nm):
+    """for every TASK_PLACEMENT event handled in the run: the place_in record the model needs (Gallina text) and the outcome
+    OBSERVED on the implementation ([1, worker] started / [2, time] re-queued / [3] consumed / [0] outside the exact part).
+    Returns (layout text, slowest text, place_in texts, outcomes, reason the run cannot be judged or None)."""
+    pools = {}
+    layout = []
+    slow = []
+    for e in run["log"]:
+        if e[0] == "cluster":
+            for k, pool in enumerate(e[1]):
+                pools[pool[0]] = k
+                rs = sorted({nm.rid(rn) for (_w, res) in pool[2] for (rn, _i, _q) in res})
+                layout.append("(%s, %s, %s)" % (gz(k), glist([gz(nm.wid(w)) for (w, _r) in pool[2]]), glist([gz(r) for r in rs])))
+        elif e[0] == "graph":
+            for t in e[1]["tasks"]:
+                if t["name"] in nm.t and t["strategies"]:
+                    slow.append("(%s, %s)" % (gz(nm.t[t["name"]]), gz(max(s[0] for s in t["strategies"]))))
+    pis, outs = [], []
+    log = run["log"]
+    i = 0
+    while i < len(log):
+        e = log[i]
+        if e[0] == "handle" and e[2] == "TASK_PLACEMENT" and e[3] is not None:
+            if len(e) < 7 or "error" in e[6] or e[6].get("pool") not in pools or e[6].get("gcancelled") is None:
+                return None, None, None, None, "placement event without a readable placement"
+            x = e[6]
+            tn = e[3]
+            if tn not in nm.t:
+                return None, None, None, None, "placement of a task of an unknown graph"
+            strat = x["strategy"]
+            exact = strat is not None and strat[2] == 1 and all(i_ == "any" for (_n, i_, _q) in strat[1])
+            if x["worker"] == "?" or (x["worker"] is not None and x["worker"] not in nm.w):
+                return None, None, None, None, "placement names a worker outside the cluster"
+            # the sub-log of this handler
+            j = i + 1
+            started, retry, wplace = None, None, None
+            while j < len(log) and log[j][0] != "handled":
+                f = log[j]
+                if f[0] == "worker" and f[1] == "place" and f[3] == tn and f[5] == "ok":
+                    wplace = f[2]
+                elif f[0] == "pool" and f[1] == "place" and f[3] == tn and f[4]:
+                    started = wplace
+                elif f[0] == "qpush" and f[2] == "TASK_PLACEMENT" and f[3] == tn:
+                    retry = f[1]
+                j += 1
+            if j >= len(log):
+                break                   # the handler did not return (the run was aborted): nothing to compare
+            if not exact:
+                out = [0]
+            elif started is not None:
+                out = [1, nm.wid(started)]
+            elif retry is not None:
+                out = [2, retry]
+            else:
+                out = [3]
+            req = g_req(nm, strat[1]) if strat is not None else "[]"
+            pis.append("(mkPI %s %s %s %s %s %s)" % (
+                gz(nm.t[tn]), gz(pools[x["pool"]]), gopt(None if x["worker"] is None else nm.wid(x["worker"]), gz), req,
+                gbool(x["gcancelled"]), gbool(exact)))
+            outs.append(out)
+        i += 1
+    return glist(layout), glist(slow), pis, outs, None
+
+
+def handlers_stream(ctx, worlds, runs, outside=lambda w: False):
+    """S-handlers: the outcome of every TASK_PLACEMENT handler computed by Model/SimHandlers.v from the machine state vs
+    the outcome observed on the implementation.  Returns ([(world index, ordinal of the handler, model outcome,
+    implementation outcome)], number of runs fed, number of handlers compared by outcome kind)."""
+    cases, idx = [], []
+    skipped = {}
+    kinds = {"outside-exact-part": 0, "started": 0, "re-queued": 0, "consumed": 0}
+    for i, (w, r) in enumerate(zip(worlds, runs)):
+        if r["status"] == "adapter-error" or not r["log"] or len(r["log"]) > MAX_LOG or outside(w):
+            skipped["no log / too long / outside the claim"] = skipped.get("no log / too long / outside the claim", 0) + 1
+            continue
+        gworld, gevs, nm, unsup, _dom = convert_q(r, w)
+        if unsup or gevs is None:
+            skipped[(unsup or "?").split(" (")[0]] = skipped.get((unsup or "?").split(" (")[0], 0) + 1
+            continue
+        layout, slow, pis, outs, why = handlers_expected(r, nm)
+        if why:
+            skipped[why] = skipped.get(why, 0) + 1
+            continue
+        if not pis:
+            skipped["no placement event handled"] = skipped.get("no placement event handled", 0) + 1
+            continue
+        # the log may end inside a handler that never returned: feed the machine only up to the last compared handler's end
+        for o in outs:
+            kinds[("outside-exact-part", "started", "re-queued", "consumed")[o[0]]] += 1
+        cases.append(("(%s, %s, %s, %s, %s)" % (gworld, layout, slow, glist(pis), gevs), [1, outs], i))
+        idx.append(i)
+    ctx.cov.setdefault("input_distribution", {})["sim_runs_not_fed_to_handler_model"] = skipped
+    ctx.cov["input_distribution"]["placement_handlers_by_observed_outcome"] = dict(kinds)
+    mism = cached_model_stream(
+        ctx, "S-handlers", HEADER_HANDLERS, "world * layout * list (Z * Z) * list place_in * list qev",
+        "(fun p => match p with (W, Ly, SL, pis, l) => observe_handlers W Ly SL pis l end)", cases, 10,
+        ["Model/Sim.v", "Model/SimQ.v", "Model/SimRows.v", "Model/SimHandlers.v", "Model/EventQ.v", "Gen/Src_Task.v",
+         "Gen/Src_TaskGraph.v", "Gen/Src_Event.v", "Model/Val.v"])
+    out = []
+    for k, mv in mism:
+        exp = cases[k][1]
+        if not (isinstance(mv, list) and len(mv) == 2 and mv[0] == 1):
+            out.append((idx[k], None, mv, None))      # the machine rejected the log (reported by S-simq) or place_in records ran out
+            continue
+        j = 0
+        while j < min(len(mv[1]), len(exp[1])) and mv[1][j] == exp[1][j]:
+            j += 1
+        out.append((idx[k], j, mv[1][j] if j < len(mv[1]) else None, exp[1][j] if j < len(exp[1]) else None))
+    return out, len(cases), kinds
